@@ -12,9 +12,12 @@ import (
 func Timeout(timeout time.Duration) func(message.HandlerFunc) message.HandlerFunc {
 	return func(h message.HandlerFunc) message.HandlerFunc {
 		return func(msg *message.Message) ([]*message.Message, error) {
-			ctx, cancel := context.WithTimeout(msg.Context(), timeout)
+			parentCtx := msg.Context()
+			ctx, cancel := context.WithTimeout(parentCtx, timeout)
 			defer func() {
 				cancel()
+				// the timeout applies to this call only: don't leave the cancelled context on the message
+				msg.SetContext(parentCtx)
 			}()
 
 			msg.SetContext(ctx)
